@@ -29,14 +29,59 @@ def layout_assume(a, n, ps, kinds):
     return A
 
 
+def enum_assume(a, n, ps):
+    A = [a[0] == ps, z3.ULE(a[1], 7), a[2] == n] + [z3.ULE(a[i], 1) for i in (3, 4, 5, 6)]
+    for i in range(n):
+        b = 8 + 3 * i
+        A += [z3.ULE(a[b], 1), z3.ULE(a[b + 2], 1)]
+    return A
+
+
+def vft_assume(a, m, ps):
+    """indices and table size: any negative number, or a small non-negative one (a huge positive index legitimately asks for a
+    huge table: the property allows time and memory proportional to the tables a description asks for)"""
+    A = [a[0] == ps, a[1] == m, z3.ULE(a[2], 1), a[3] <= 3]
+    for k in range(m):
+        b = 4 + 10 * k
+        f = a[b + 2:b + 10]
+        A += [z3.ULE(a[b], 1), a[b + 1] <= 3]
+        A += [z3.Or(f[0] == 1, f[0] == 2), f[1] == 0, f[2] == 0, f[3] == 0, f[4] == 0, f[5] == 0, f[6] == 0, f[7] == 1]
+    return A
+
+
+def impl_assume(a, ps):
+    f = a[4:12]
+    return [a[0] == ps, z3.ULE(a[1], 1), z3.ULE(a[3], 1), z3.ULE(f[0], 2), z3.ULE(f[1], 1), z3.Or(f[2] == 0, f[2] == 4), f[3] == 0, f[4] == 0,
+            z3.Or(f[5] == 0, f[5] == 1, f[5] == 5), z3.Or(f[6] == 0, f[6] == 8), f[7] == 1]
+
+
+def extern_assume(a, ps):
+    return [a[0] == ps, z3.ULE(a[1], 1), z3.ULE(a[3], 1), a[5] == 1, z3.ULE(a[6], 1), z3.Or(a[8] == 0, a[8] == 4, a[8] == 7), a[9] == 1]
+
+
+def nest_assume(a, ps):
+    A = [a[0] == ps, z3.Or(a[9] == 0, a[9] == 3)] + [z3.ULE(a[i], 1) for i in (4, 6, 8, 12, 15, 17)] + [z3.ULE(a[11], 7)]
+    return A
+
+
 def slices(tier, rng):
     out = []
     for ps in (4, 8):
         for n, kinds in ((1, [0, 1, 3, 4, 5]), (2, [0, 3, 4])):
-            if tier == 'quick' and n == 2: continue
+            if tier == 'quick' and (n == 2 or ps == 8): continue
             out.append(Slice('layout-n%d-ps%d' % (n, ps), 't_layout', NHEAD + STRIDE * n,
                              lambda a, n=n, ps=ps, kinds=kinds: layout_assume(a, n, ps, kinds),
                              opts={'summarize': [], 'must_reach': ['ok', 'err'], 'time_limit': 900}, ctx={'n': n, 'desc': 'layout'}))
+    ps = 8 if tier == 'quick' else 4
+    for ps in ((8,) if tier == 'quick' else (4, 8)):
+        out.append(Slice('enum-n2-ps%d' % ps, 't_enum', 8 + 3 * 2, lambda a, ps=ps: enum_assume(a, 2, ps), opts={'must_reach': ['ok', 'err']}))
+        out.append(Slice('vft-m2-ps%d' % ps, 't_vft', 4 + 10 * 2, lambda a, ps=ps: vft_assume(a, 2, ps),
+                         opts={'must_reach': ['ok', 'err'], 'max_steps': 60000}))
+        out.append(Slice('impl-ps%d' % ps, 't_impl', 12, lambda a, ps=ps: impl_assume(a, ps), opts={'must_reach': ['ok', 'err']}))
+        out.append(Slice('extern-ps%d' % ps, 't_extern', 10, lambda a, ps=ps: extern_assume(a, ps), opts={'must_reach': ['ok', 'err']}))
+        if tier != 'quick':
+            out.append(Slice('nest-ps%d' % ps, 't_nest', 19, lambda a, ps=ps: nest_assume(a, ps),
+                             opts={'must_reach': ['ok', 'err'], 'time_limit': 1200}))
     return out
 
 
@@ -56,4 +101,9 @@ def region_env(a, sl):
 
 def describe(template, args):
     if template == 't_layout': return describe_layout(args)
-    return str(args)
+    from . import c08, c04, c05, c15, c02
+    m = {'t_enum': c08, 't_vft': c04, 't_impl': c05, 't_extern': c15, 't_nest': c02}.get(template)
+    if m is not None:
+        try: return m.describe(template, args)
+        except Exception: pass
+    return '%s%s' % (template, [int(x) for x in args])
